@@ -115,7 +115,8 @@ func BuildDependency(argumentListContext *parser.ArgumentListContext) *core_doma
 }
 
 func ConvertToJDep(result string) *core_domain.CodeDependency {
-	withQuote := strings.ReplaceAll(result, "'", "")
+	// the notation is written 'group:artifact:version' or "group:artifact:version"
+	withQuote := strings.Trim(result, "'\"")
 	split := strings.Split(withQuote, ":")
 	return core_domain.NewCodeDependency(split[0], split[1])
 }
